@@ -286,6 +286,9 @@ def plain_member_directions(rep, idx, rule, only_module=None):
             # interface-typed members are the business of the port-orientation rules
             if idx.resolve_class(shape[1] if shape[0] == 'call' else shape, cls.module, cls) is not None:
                 continue
+            if any(x[0] == 'attr' and x[2] in ("signature", "flip") for x in ir.walk(shape)) or \
+                    any(x[0] == 'call' and ir.show(x[1]).endswith("Signature") for x in ir.walk(shape)):
+                continue                                # In(other.port.signature), Out(sig.flip()): an interface as well
             n += 1
             if name in driven:
                 d = driven[name]
